@@ -152,7 +152,12 @@ class Check:
                   coverage=cov, assumptions=self.assumptions, wall_s=round(wall, 2),
                   violations=nviol)
         if self.replay_only is None:
-            with open(os.path.join(EVID, self.pid + ".json"), "w") as f:
+            # evidence describes runs against /repo; a run against a scratch tree (RICH_SRC) must not overwrite it
+            target = os.path.join(EVID, self.pid + ".json")
+            if os.path.realpath(rich_src()) != "/repo":
+                os.makedirs(os.path.join(VERIF, ".work"), exist_ok=True)
+                target = os.path.join(VERIF, ".work", "evidence-scratch-%s-%d.json" % (self.pid, os.getpid()))
+            with open(target, "w") as f:
                 json.dump(ev, f, indent=1, default=str)
         print("%s %s: tier=%s seed=%d states=%d transitions=%d traces=%d evaluations=%d distinct=%d known=%d violations=%d wall=%.1fs" % (
             self.pid, "FAIL" if nviol else "ok", self.tier, self.seed, self.states, self.transitions,
